@@ -137,6 +137,38 @@ var refinements = map[string]refinement{
   access(all) view fun kenc(_ k: Int): Int { return k }
   access(all) view fun kdec(_ k: Int): Int { return k }
 ` + containerFuncs("[Int]")},
+	// payload classes by STORAGE FORM crossed with the declared element type:
+	// arbitrary-precision Int / UInt too large to be stored inline (1 << 8000: the element, the dictionary
+	// key and the dictionary value each live in a slab of their own while a small container stays one slab),
+	// a medium Int that is still inline (1 << 1000), and Int256 (always inline)
+	"bigI": {name: "bigI", E: "Int", K: "Int", body: `
+  access(all) let big: Int
+  access(all) view fun enc(_ k: Int): Int { return self.big + k }
+  access(all) view fun dec(_ e: Int): Int { return e - self.big }
+  access(all) view fun kenc(_ k: Int): Int { return self.big + k }
+  access(all) view fun kdec(_ k: Int): Int { return k - self.big }
+`, init: `self.big = 1 << 8000`},
+	"bigU": {name: "bigU", E: "UInt", K: "UInt", body: `
+  access(all) let big: UInt
+  access(all) view fun enc(_ k: Int): UInt { return self.big + UInt(k) }
+  access(all) view fun dec(_ e: UInt): Int { return e >= self.big ? Int(e - self.big) : -999 }
+  access(all) view fun kenc(_ k: Int): UInt { return self.big + UInt(k) }
+  access(all) view fun kdec(_ k: UInt): Int { return k >= self.big ? Int(k - self.big) : -999 }
+`, init: `self.big = 1 << 8000`},
+	"medI": {name: "medI", E: "Int", K: "Int", body: `
+  access(all) let big: Int
+  access(all) view fun enc(_ k: Int): Int { return self.big + k }
+  access(all) view fun dec(_ e: Int): Int { return e - self.big }
+  access(all) view fun kenc(_ k: Int): Int { return self.big + k }
+  access(all) view fun kdec(_ k: Int): Int { return k - self.big }
+`, init: `self.big = 1 << 1000`},
+	"i256": {name: "i256", E: "Int256", K: "Int256", body: `
+  access(all) let big: Int256
+  access(all) view fun enc(_ k: Int): Int256 { return self.big + Int256(k) }
+  access(all) view fun dec(_ e: Int256): Int { return Int(e - self.big) }
+  access(all) view fun kenc(_ k: Int): Int256 { return self.big + Int256(k) }
+  access(all) view fun kdec(_ k: Int256): Int { return Int(k - self.big) }
+`, init: `self.big = 1 << 200`},
 	// key representation parameter: Int elements under short / long string keys
 	"sk": {name: "sk", E: "Int", K: "String", body: intElems + keyFuncsShort, init: keyInit},
 	"lk": {name: "lk", E: "Int", K: "String", body: intElems + keyFuncsLong, init: `self.pad = "` + pad295 + `"; ` + keyInit},
